@@ -1198,7 +1198,22 @@ fn check_reject(c: &RejectCase) -> Verdict {
         }
     }
     match &written.outcomes[ri] {
-        WriteOutcome::Err(_) => {}
+        WriteOutcome::Err(_) => {
+            // a rejection leaves no trace: the records accepted before and after it on the same
+            // writer are stored exactly as a writer that never saw the rejected record stores them
+            let others: Vec<vcf::variant::RecordBuf> = inputs.iter().enumerate().filter(|(i, _)| *i != ri).map(|(_, r)| r.clone()).collect();
+            let control = write_bcf(&header, &others)?;
+            if control.outcomes.iter().all(|o| matches!(o, WriteOutcome::Ok)) {
+                let (a, b) = (inflate(&written.file)?, inflate(&control.file)?);
+                if a != b {
+                    let at = a.iter().zip(b.iter()).position(|(x, y)| x != y).unwrap_or(a.len().min(b.len()));
+                    return fail1(
+                        format!("c10.reject.{class}.trace-left"),
+                        format!("after the writer rejected record {ri} ({}), the stream holds {} bytes where a writer that was only given the other {} records writes {} (first difference at byte {at}): the accepted records are not stored as written", describe(), a.len(), others.len(), b.len()),
+                    );
+                }
+            }
+        }
         WriteOutcome::Panic(p) => return fail1(sig("panic"), format!("the writer panics instead of returning Err: {}; record: {}", p.describe(), describe())),
         WriteOutcome::Ok => {
             verdict_label = "accepted";
